@@ -99,6 +99,8 @@ OPS = {
     "cancel_all_msg": {"op": "cancel_all", "pool": 0, "msg": "bye"},
     "cancel_group0_msg": {"op": "cancel_group", "pool": 0, "sel": ["live", 0], "msg": "stop it"},
     "cancel_then_close_raise": {"op": "seq", "steps": [{"op": "cancel_all", "pool": 0, "msg": "shutting down"}, {"op": "gac", "pool": 0, "rex": False, "waiters": 1}]},
+    "cancel_close_inline": {"op": "seq", "steps": [{"op": "cancel_all", "pool": 0, "msg": "shutting down"}], "then_gac": {"pool": 0, "rex": False}},
+    "cancel_close_inline_rex": {"op": "seq", "steps": [{"op": "cancel_all", "pool": 0}], "then_gac": {"pool": 0, "rex": True}},
     "pause_resume": {"op": "seq", "steps": [{"op": "set_size", "pool": 0, "v": 0}, {"op": "set_size", "pool": 0, "v": "orig"}]},
     "cancel_then_close": {"op": "seq", "steps": [{"op": "cancel_all", "pool": 0, "msg": "shutting down"}, {"op": "gac", "pool": 0, "rex": True, "waiters": 1}]},
     "regroup": {"op": "seq", "steps": [{"op": "cancel_group", "pool": 0, "sel": ["live", 0]},
@@ -110,15 +112,15 @@ OPS = {
 SPECS = {
     "C01": ["cancel0", "cancel_group0", "cancel_all", "stop1", "flush", "apply1", "start1", "set_same"],
     "C02": ["cancel0", "cancel_last", "cancel2", "cancel_group0", "cancel_group1", "cancel_all", "stop1", "stop_all", "flush", "cancel_then_close"],
-    "C03": ["cancel0", "cancel_twice", "cancel_group0", "cancel_all", "stop2", "flush", "cancel_all_msg", "cancel_group0_msg", "cancel_then_close"],
+    "C03": ["cancel0", "cancel_twice", "cancel_group0", "cancel_all", "stop2", "flush", "cancel_all_msg", "cancel_group0_msg", "cancel_then_close", "cancel_close_inline_rex"],
     "C04": ["lock", "gac", "cancel0", "cancel_group1", "regroup", "pause_resume"],
     "C05": ["cancel0", "cancel_last", "flush", "apply1"],
     "C06": ["cancel0", "cancel2", "cancel_mixed", "cancel_twice", "cancel_last"],
     "C07": ["cancel_group0", "cancel_group1", "cancel_all", "regroup", "regroup_map", "cancel_group0_msg", "cancel_all_msg"],
-    "C08": ["gac", "regroup", "cancel_then_close", "cancel_then_close_raise"],
+    "C08": ["gac", "regroup", "cancel_then_close", "cancel_then_close_raise", "cancel_close_inline", "cancel_close_inline_rex"],
     "C10": ["cancel_group0", "apply1", "start1", "regroup", "regroup_map"],
     "C11": ["flush", "cancel0", "apply1", "start1"],
-    "C12": ["flush_raise", "flush", "gac", "cancel_then_close_raise"],
+    "C12": ["flush_raise", "flush", "gac", "cancel_then_close_raise", "cancel_close_inline"],
     "C13": ["flush", "flush_raise", "cancel0", "cancel_last", "cancel_group0"],
     "C14": ["stop1", "stop2", "stop_all"],
 }
